@@ -4,7 +4,7 @@
    observed request / response / event sequence.  Every state change goes through the extracted `step_act`; the search
    strategy below (when to let the machine thread run) is not trusted: it can only fail to find a schedule.
 
-   request  {"cmd":"accept","protocol":"StateHeld"|"Legacy","pc":[..],"sp":[..],"op":[..],"ret":[..],"fuel":n,"items":[item..]}
+   request  {"cmd":"accept","protocol":"StateHeld"|"Legacy","reset_lcp":bool,"pc":[..],"sp":[..],"op":[..],"ret":[..],"fuel":n,"items":[item..]}
    item     ["req", kind, arg] | ["resp", kind, payload] | ["event", name]
             kind: configurationDone continue pause stepIn next stepOut setBreakpoints stackTrace registers evaluate
             arg (setBreakpoints): [[lo,hi],..];  payload: stackTrace -> pc | null (no frame); registers -> index | null (unchecked)
@@ -19,6 +19,7 @@ let accept (req : json) : json =
   let n = Array.length pcs in
   let zpcs = Array.map z_of_small pcs in
   let proto = if to_str (field req "protocol") = "Legacy" then Legacy else StateHeld in
+  let reset = (match field req "reset_lcp" with Bool b -> b | _ -> true) in
   let fuel = nat_of_int (let f = to_int (field req "fuel") in if f <= 0 then 100000 else f) in
   let chk i = if i < 0 || i >= n then failwith (Printf.sprintf "trajectory too short: index %d of %d" i n) in
   let pcf (i : int) : z = chk i; zpcs.(i) in
@@ -42,7 +43,7 @@ let accept (req : json) : json =
   let nact = ref 0 in
   let act k (s : int st) (a : action) : int st * int obs list =
     incr nact;
-    match step_act pcf stepf finf so sout proto a s with
+    match step_act pcf stepf finf so sout reset proto a s with
     | Some r -> r
     | None -> raise (Reject (k, "model action not enabled")) in
   let quiet k s a = let (s', o) = act k s a in if o <> [] then raise (Reject (k, "unexpected observation")); s' in
